@@ -73,12 +73,25 @@ func main() {
 	seed := flag.Uint64("seed", 1, "PRNG seed")
 	outPath := flag.String("out", "", "output file (default stdout)")
 	inputsFlag := flag.String("inputs", "", "run only the inputs listed in this file (replay / corpus mode)")
+	gendir := flag.String("gendir", "lean/Grol/Generated", "extract: directory of the generated Lean files")
+	repoFlag := flag.String("repo", os.Getenv("VERIF_REPO"), "extract: path of the grol working tree")
 	flag.Parse()
 	if flag.NArg() < 1 {
 		fmt.Fprintln(os.Stderr, "usage: harness [flags] <suite> [args]")
 		os.Exit(2)
 	}
 	name := flag.Arg(0)
+	if name == "extract" {
+		repo := *repoFlag
+		if repo == "" {
+			repo = "/repo"
+		}
+		if err := runExtract(*gendir, repo); err != nil {
+			fmt.Fprintln(os.Stderr, "extract:", err)
+			os.Exit(1)
+		}
+		return
+	}
 	su, ok := suites[name]
 	if !ok {
 		fmt.Fprintln(os.Stderr, "unknown suite", flag.Arg(0))
